@@ -12,6 +12,19 @@ The theorems below are decided over those finite tables, so each is a statement 
 tool's classification; vocabulary in the header of tools/resfacts/main.go), not a sample.  Line numbers are carried in the
 table for the reader and never used here.
 
+Every text the theorems quote is a go/types IDENTITY (tools/resfacts/canon.go), not source text: a callee is `pkg.Func` or
+`<type of the root variable>.<field path>.Method` with packages by module-relative / import path (`recordio/proto.NewReader`
+whatever the import is called, `sstables.SSTableStreamWriter.Open` for `writer.Open()` whatever the local is called); a
+place is the field path under the TYPE of its root (`sstables.SSTableStreamWriter.indexWriter`), a local that merely receives
+a value is named by its type, or by the field of the local object it is put into (`sstables.SSTableReader.index`);
+conditions are in a normal form (`errNonNil`, `nonNil(x)` / `isNil(x)`, comparisons by == and <, a local with one
+definition replaced by what defines it, an else branch as the negated condition); the failing step of an error return is the
+CALL WHOSE ERROR THE RETURN REPORTS (followed through `fmt.Errorf("…%w", err)` and the error variable's reaching
+definition), however the `if` around the `return` is spelled, listed in the order in which the calls stand in the source.
+Renaming a local / receiver / parameter / import alias / private function, inverting an if / else, re-wording a message,
+adding a log line or wrapping an error with %w does not change a row; renaming a FIELD or an exported function that a theorem
+names does.
+
 The first version of this file carried ten FINDINGs — genuine leaks on error paths, each reproduced on the real code by the
 tests in tools/resfacts/findings/ — in explicit exception lists, "so that the theorems hold on the unchanged tree and SHRINK
 when the code is repaired".  They have been repaired (F1 ef70dba, F2 5d579b7, F3 3b4867f, F4 a9ebc7d + a7ed007, F5 8cb5d77,
@@ -89,10 +102,12 @@ def allowedErrorPathLeaks : List (String × String × List String) :=
     -- opened before it returns (`failed_constructors_give_back_what_they_opened`: every resource `Open` stores is released by
     -- its deferred clean-up under `err != nil`, no failing step is left after a store).  The callers still return without
     -- `writer.Close()` on that path — there is nothing left to close (reproductions F3 / F3b pass on the current tree).
-    ("memstore.flushMemstore", "sstables.NewSSTableStreamWriter", ["writer.Open"]),
-    ("simpledb.executeCompaction", "sstables.NewSSTableStreamWriter", ["writer.Open"]),
-    -- internal invariant (the replacement path is one of the inputs): not reachable
-    ("SSTableManager.reflectCompactionResult", "sstables.NewSSTableReader", ["i < 0"]) ]
+    ("memstore.flushMemstore", "sstables.NewSSTableStreamWriter", ["sstables.SSTableStreamWriter.Open"]),
+    ("simpledb.executeCompaction", "sstables.NewSSTableStreamWriter", ["sstables.SSTableStreamWriter.Open"]),
+    -- internal invariant (the replacement path is one of the inputs — `i < 0` for the index of the replacement path among
+    -- the current readers): not reachable
+    ("SSTableManager.reflectCompactionResult", "sstables.NewSSTableReader",
+      ["simpledb.indexOfReader(simpledb.SSTableManager.allSSTableReaders, simpledb/proto.CompactionMetadata.ReplacementPath) < 0"]) ]
 
 /-- EXACTLY these acquisitions are reported as left open by an error return, at exactly these failing steps — none of them a
 real leak (reasons at the list; it had 16 entries, 13 of them genuine, before the repairs ef70dba, 8cb5d77, 5d579b7, 3b4867f,
@@ -117,36 +132,43 @@ rows of `SSTableStreamWriter.Open` / `DB.Open` went with 3b4867f / edfc7e7, whos
   one: `setupNextWriter` below), the caller gets the error;
 * flusher / compactor: the goroutine stops with `log.Panicf`, which since 6dd9211 really stops the process (the done signal
   is no longer a deferred send in the way of the panic: `db_open_starts_what_close_joins`, `C02.Order.done_signal_not_on_error_path`);
-* `reflectCompactionResult` ("readerIndex < 0"): internal invariant;
+* `reflectCompactionResult` (`readerIndex < 0`: the index of a compacted input — an element of the metadata's path list —
+  among the current readers): internal invariant;
 * `DB.reconstructSSTables` / `DB.replayAndSetupWriteAheadLog`: tables loaded (or flushed from the replayed WAL) before a later
   step fails stay in the manager WHEN THESE FUNCTIONS RETURN — their only caller `DB.Open` closes and forgets them in its
   deferred clean-up under `err != nil` (edfc7e7; the `DB.Open` rows in `failed_constructors_give_back_what_they_opened`);
   the rows remain because the walk is intraprocedural (reproduction F7 passes on the current tree). -/
 theorem half_built_owners :
     (acquisitions.filter (fun r => !r.errAfterStore.isEmpty)).map (fun r => (r.fn, r.callee, r.errAfterStore)) =
-      [("SSTableReader.Scan", "rProto.NewReader", ["reader.index.Iterator"]),
-       ("SSTableReader.Scan", "recordio.NewFileReader", ["reader.index.Iterator"]),
-       ("SSTableSimpleWriter.WriteSkipListMap", "writer.streamWriter.Open", ["writer.streamWriter.Open"]),
-       ("Appender.Append", "checkSizeAndRotate", ["checkSizeAndRotate", "a.currentWriter.Write"]),
-       ("Appender.AppendSync", "checkSizeAndRotate", ["checkSizeAndRotate", "a.currentWriter.WriteSync"]),
-       ("Appender.Rotate", "setupNextWriter", ["setupNextWriter"]),
-       ("wal.checkSizeAndRotate", "a.Rotate", ["a.Rotate"]),
-       ("simpledb.flushMemstoreContinuously", "executeFlush", ["executeFlush"]),
-       ("simpledb.backgroundCompaction", "db.sstableManager.reflectCompactionResult",
-         ["db.sstableManager.reflectCompactionResult", "executeCompaction"]),
-       ("SSTableManager.reflectCompactionResult", "sstables.NewSSTableReader", ["readerIndex < 0"]),
-       ("DB.reconstructSSTables", "sstables.NewSSTableReader", ["strconv.ParseUint", "removeUnfinishedTable", "sstables.NewSSTableReader"]),
-       ("DB.replayAndSetupWriteAheadLog", "executeFlush",
-         ["executeFlush", "os.ReadDir", "os.RemoveAll", "os.MkdirAll", "wal.NewWriteAheadLog"])] := by decide +kernel
+      [("SSTableReader.Scan", "recordio/proto.NewReader", ["sstables.SSTableReader.index.Iterator"]),
+       ("SSTableReader.Scan", "recordio.NewFileReader", ["sstables.SSTableReader.index.Iterator"]),
+       ("SSTableSimpleWriter.WriteSkipListMap", "sstables.SSTableSimpleWriter.streamWriter.Open",
+         ["sstables.SSTableSimpleWriter.streamWriter.Open"]),
+       ("Appender.Append", "wal.checkSizeAndRotate", ["wal.checkSizeAndRotate", "wal.Appender.currentWriter.Write"]),
+       ("Appender.AppendSync", "wal.checkSizeAndRotate", ["wal.checkSizeAndRotate", "wal.Appender.currentWriter.WriteSync"]),
+       ("Appender.Rotate", "wal.setupNextWriter", ["wal.setupNextWriter"]),
+       ("wal.checkSizeAndRotate", "wal.Appender.Rotate", ["wal.Appender.Rotate"]),
+       ("simpledb.flushMemstoreContinuously", "simpledb.executeFlush", ["simpledb.executeFlush"]),
+       ("simpledb.backgroundCompaction", "simpledb.DB.sstableManager.reflectCompactionResult",
+         ["simpledb.executeCompaction", "simpledb.DB.sstableManager.reflectCompactionResult"]),
+       ("SSTableManager.reflectCompactionResult", "sstables.NewSSTableReader",
+         ["simpledb.indexOfReader(simpledb.SSTableManager.allSSTableReaders, elem(simpledb/proto.CompactionMetadata.SstablePaths)) < 0"]),
+       ("DB.reconstructSSTables", "sstables.NewSSTableReader",
+         ["strconv.ParseUint", "simpledb.removeUnfinishedTable", "sstables.NewSSTableReader"]),
+       ("DB.replayAndSetupWriteAheadLog", "simpledb.executeFlush",
+         ["simpledb.executeFlush", "os.ReadDir", "os.RemoveAll", "os.MkdirAll", "wal.NewWriteAheadLog"])] := by decide +kernel
 
 /-- The repaired error paths, each pinned as the rows it changed — a constructor / `Open` / loader that fails half-way gives
 back what it had opened:
 * ef70dba: the three in-memory index loaders close their index.rio reader on ALL paths (the `defer` now precedes `reader.Open()`);
 * 5d579b7: `NewSSTableReader` — the index, and whichever data reader exists, belong to the reader object from the moment they
-  exist; a deferred `reader.Close()` under `err != nil` releases them when any later step fails; on success they are returned;
+  exist (`bound`: the field of the reader object each is put into); a deferred `reader.Close()` under `err != nil` releases
+  them when any later step fails; on success they are returned;
 * 3b4867f: `SSTableStreamWriter.Open` — index writer, data writer and metadata file are stored in the writer and released by
-  the deferred clean-up under `err != nil` (the tool reads the early-return spelling `if err == nil { return }`; the nil
-  checks around the three closes test the field being closed); NO failing step is left after a store (`errAfterStore` empty);
+  the deferred clean-up under `err != nil` (site `deferGuarded(errNonNil)` whether it is spelled `if err != nil { … }` or
+  `if err == nil { return }; …` — and only a guard on the function's own NAMED error result counts as "runs when the function
+  fails", decided on the variable's identity, not on the text; the nil checks around the three closes test the field being
+  closed); NO failing step is left after a store (`errAfterStore` empty);
 * a9ebc7d: `setupNextWriter` closes the WAL file writer whose `Open()` failed in the return expression, else stores it;
 * 9faa0b1: `NewWriteAheadLog` acquires only the appender, nothing can fail after it (the replayer is created first);
 * edfc7e7: `DB.Open` — what `reconstructSSTables` / `replayAndSetupWriteAheadLog` left in the manager is given back by the
@@ -157,22 +179,22 @@ a new fallible step after a store that the clean-up does not cover. -/
 theorem failed_constructors_give_back_what_they_opened :
     (["MapKeyIndexLoader.Load", "SliceKeyIndexLoader.Load", "SkipListIndexLoader.Load"].map
         (fun f => (acqOf f).map (fun r => (r.callee, r.disp, r.sites)))) =
-      [[("rProto.NewReader", Disp.closedOnAllPaths, ["defer"])], [("rProto.NewReader", Disp.closedOnAllPaths, ["defer"])],
-       [("rProto.NewReader", Disp.closedOnAllPaths, ["defer"])]] ∧
+      [[("recordio/proto.NewReader", Disp.closedOnAllPaths, ["defer"])], [("recordio/proto.NewReader", Disp.closedOnAllPaths, ["defer"])],
+       [("recordio/proto.NewReader", Disp.closedOnAllPaths, ["defer"])]] ∧
     (acqOf "sstables.NewSSTableReader").map (fun r => (r.callee, r.bound, r.disp, r.sites)) =
-      [("opts.indexLoader.Load", "index", Disp.returned, ["deferGuarded(err != nil)"]),
-       ("rProto.NewMMapProtoReaderWithPath", "v0DataReader", Disp.returned, ["deferGuarded(err != nil)"]),
-       ("recordio.NewMemoryMappedReaderWithPath", "dataReader", Disp.returned, ["deferGuarded(err != nil)"])] ∧
+      [("sstables.SSTableReaderOptions.indexLoader.Load", "sstables.SSTableReader.index", Disp.returned, ["deferGuarded(errNonNil)"]),
+       ("recordio/proto.NewMMapProtoReaderWithPath", "sstables.SSTableReader.v0DataReader", Disp.returned, ["deferGuarded(errNonNil)"]),
+       ("recordio.NewMemoryMappedReaderWithPath", "sstables.SSTableReader.dataReader", Disp.returned, ["deferGuarded(errNonNil)"])] ∧
     (acqOf "SSTableStreamWriter.Open").map (fun r => (r.callee, r.disp, r.sites)) =
-      [("rProto.NewWriter", Disp.storedIn "writer.indexWriter", ["deferGuarded(err != nil)"]),
-       ("recordio.NewFileWriter", Disp.storedIn "writer.dataWriter", ["deferGuarded(err != nil)"]),
-       ("os.OpenFile", Disp.storedIn "writer.metaDataFile", ["deferGuarded(err != nil)"])] ∧
+      [("recordio/proto.NewWriter", Disp.storedIn "sstables.SSTableStreamWriter.indexWriter", ["deferGuarded(errNonNil)"]),
+       ("recordio.NewFileWriter", Disp.storedIn "sstables.SSTableStreamWriter.dataWriter", ["deferGuarded(errNonNil)"]),
+       ("os.OpenFile", Disp.storedIn "sstables.SSTableStreamWriter.metaDataFile", ["deferGuarded(errNonNil)"])] ∧
     (acqOf "wal.setupNextWriter").map (fun r => (r.callee, r.disp, r.sites)) =
-      [("a.walOptions.writerFactory", Disp.storedIn "a.currentWriter", ["return"])] ∧
-    (acqOf "wal.NewWriteAheadLog").map (fun r => (r.callee, r.disp)) = [("NewAppender", Disp.returned)] ∧
+      [("wal.Appender.walOptions.writerFactory", Disp.storedIn "wal.Appender.currentWriter", ["return"])] ∧
+    (acqOf "wal.NewWriteAheadLog").map (fun r => (r.callee, r.disp)) = [("wal.NewAppender", Disp.returned)] ∧
     ((acqOf "DB.Open").filter (fun r => r.kind == "state")).map (fun r => (r.callee, r.disp, r.sites)) =
-      [("db.reconstructSSTables", Disp.storedIn "via DB.reconstructSSTables", ["deferGuarded(err != nil)"]),
-       ("db.replayAndSetupWriteAheadLog", Disp.storedIn "via DB.replayAndSetupWriteAheadLog", ["deferGuarded(err != nil)"])] ∧
+      [("simpledb.DB.reconstructSSTables", Disp.storedIn "via DB.reconstructSSTables", ["deferGuarded(errNonNil)"]),
+       ("simpledb.DB.replayAndSetupWriteAheadLog", Disp.storedIn "via DB.replayAndSetupWriteAheadLog", ["deferGuarded(errNonNil)"])] ∧
     -- no error return leaves any of them open, and no failing step follows a store
     (["MapKeyIndexLoader.Load", "SliceKeyIndexLoader.Load", "SkipListIndexLoader.Load", "sstables.NewSSTableReader",
       "SSTableStreamWriter.Open", "wal.setupNextWriter", "wal.NewWriteAheadLog", "DB.Open"].all
@@ -185,17 +207,17 @@ around it, stored in the table writer, or closed on all paths.  Excludes a new `
 success path, and any of these becoming conditional. -/
 theorem raw_handles_handed_over_or_closed :
     (acquisitions.filter (fun r => r.kind == "file" || r.kind == "mmap")).map (fun r => (r.fn, r.callee, r.disp)) =
-      [("recordio.NewMemoryMappedReaderWithPath", "mmap.Open", Disp.returned),
+      [("recordio.NewMemoryMappedReaderWithPath", "golang.org/x/exp/mmap.Open", Disp.returned),
        ("BufferedIOFactory.CreateNewReader", "os.OpenFile", Disp.returned),
-       ("BufferedIOFactory.CreateNewWriter", "os.OpenFile", Disp.handedTo "NewWriterBuf"),
-       ("DirectIOFactory.CreateNewReader", "directio.OpenFile", Disp.returned),
-       ("DirectIOFactory.CreateNewWriter", "directio.OpenFile", Disp.handedTo "NewAlignedWriterBuf"),
+       ("BufferedIOFactory.CreateNewWriter", "os.OpenFile", Disp.handedTo "recordio.NewWriterBuf"),
+       ("DirectIOFactory.CreateNewReader", "github.com/ncw/directio.OpenFile", Disp.returned),
+       ("DirectIOFactory.CreateNewWriter", "github.com/ncw/directio.OpenFile", Disp.handedTo "recordio.NewAlignedWriterBuf"),
        ("recordio.IsDirectIOAvailable", "os.CreateTemp", Disp.closedOnAllPaths),
-       ("recordio.IsDirectIOAvailable", "directio.OpenFile", Disp.closedOnAllPaths),
-       ("rproto.NewWriter", "directio.OpenFile", Disp.handedTo "recordio.NewFileWriter"),
+       ("recordio.IsDirectIOAvailable", "github.com/ncw/directio.OpenFile", Disp.closedOnAllPaths),
+       ("rproto.NewWriter", "github.com/ncw/directio.OpenFile", Disp.handedTo "recordio.NewFileWriter"),
        ("rproto.NewWriter", "os.OpenFile", Disp.handedTo "recordio.NewFileWriter"),
        ("sstables.readMetaDataIfExists", "os.Open", Disp.closedOnAllPaths),
-       ("SSTableStreamWriter.Open", "os.OpenFile", Disp.storedIn "writer.metaDataFile")] := by decide +kernel
+       ("SSTableStreamWriter.Open", "os.OpenFile", Disp.storedIn "sstables.SSTableStreamWriter.metaDataFile")] := by decide +kernel
 
 /-- What every `Close` method does with every field its receiver owns — the complete list.  A field is released where the
 statement stands (`via` without "defer"), unconditionally, except:
@@ -223,7 +245,7 @@ theorem close_methods_release_every_owned_field :
        ("SSTableReader.Close", "miscClosers", RDisp.closedUnconditionally, ["Close"]),
        ("SSTableStreamWriter.Close", "indexWriter", RDisp.closedUnconditionally, ["Close"]),
        ("SSTableStreamWriter.Close", "dataWriter", RDisp.closedUnconditionally, ["Close"]),
-       ("SSTableStreamWriter.Close", "metaDataFile", RDisp.closedInBranch "writer.metaData != nil", ["defer Close"]),
+       ("SSTableStreamWriter.Close", "metaDataFile", RDisp.closedInBranch "nonNil(sstables.SSTableStreamWriter.metaData)", ["defer Close"]),
        ("SuperSSTableReader.Close", "readers", RDisp.closedUnconditionally, ["Close"]),
        ("DiskKeyIndex.Close", "reader", RDisp.closedUnconditionally, ["Close"]),
        ("Appender.Close", "currentWriter", RDisp.closedUnconditionally, ["Close"]),
@@ -231,9 +253,9 @@ theorem close_methods_release_every_owned_field :
        ("DB.Close", "sstableManager", RDisp.closedUnconditionally, ["Close"]),
        ("DB.Close", "storeFlushChannel", RDisp.closedUnconditionally, ["close"]),
        ("DB.Close", "doneFlushChannel", RDisp.closedUnconditionally, ["recv"]),
-       ("DB.Close", "compactionTicker", RDisp.closedInBranch "db.enableCompactions", ["Stop"]),
-       ("DB.Close", "compactionTickerStopChannel", RDisp.closedInBranch "db.enableCompactions", ["send"]),
-       ("DB.Close", "doneCompactionChannel", RDisp.closedInBranch "db.enableCompactions", ["recv"]),
+       ("DB.Close", "compactionTicker", RDisp.closedInBranch "simpledb.DB.enableCompactions", ["Stop"]),
+       ("DB.Close", "compactionTickerStopChannel", RDisp.closedInBranch "simpledb.DB.enableCompactions", ["send"]),
+       ("DB.Close", "doneCompactionChannel", RDisp.closedInBranch "simpledb.DB.enableCompactions", ["recv"]),
        ("rproto.MMapProtoReader.Close", "ReadAtI", RDisp.promoted, ["Close"]),
        ("rproto.Reader.Close", "ReaderI", RDisp.promoted, ["Close"]),
        ("MapKeyIndex.Close", "SliceKeyIndex", RDisp.promoted, ["Close"]),
@@ -261,7 +283,7 @@ theorem db_close_joins_goroutines_then_closes_wal_and_readers :
       [["storeFlushChannel"], ["doneFlushChannel"], ["compactionTicker"], ["compactionTickerStopChannel"],
        ["doneCompactionChannel"], ["wal"], ["sstableManager"], []] ∧
     (relOf "DB.Close").all (fun r => !r.inDefer && !r.inLoop) = true ∧
-    (relOf "DB.Close").all (fun r => r.skippable && r.skippedBy == ["func literal: !db.open, db.closed"]) = true := by decide +kernel
+    (relOf "DB.Close").all (fun r => r.skippable && r.skippedBy == ["func literal: !simpledb.DB.open, simpledb.DB.closed"]) = true := by decide +kernel
 
 /-- `DB.Open` starts exactly two goroutines and one ticker; each goroutine announces its end on a channel that `DB.Close`
 receives from, and what `Open` starts under `db.enableCompactions` is exactly what `Close` stops / joins under
@@ -275,44 +297,51 @@ created outside the flag, a goroutine without a completion signal on some normal
 signal moved back into a `defer`. -/
 theorem db_open_starts_what_close_joins :
     ((acqOf "DB.Open").filter (fun r => r.kind == "goroutine" || r.kind == "ticker")).map (fun r => (r.callee, r.disp, r.sites, r.cond)) =
-      [("flushMemstoreContinuously", Disp.joinedVia "doneFlushChannel", ["direct"], ""),
-       ("time.NewTicker", Disp.storedIn "db.compactionTicker", [], "db.enableCompactions"),
-       ("backgroundCompaction", Disp.joinedVia "doneCompactionChannel", ["direct", "direct"], "db.enableCompactions")] ∧
+      [("simpledb.flushMemstoreContinuously", Disp.joinedVia "simpledb.DB.doneFlushChannel", ["direct"], ""),
+       ("time.NewTicker", Disp.storedIn "simpledb.DB.compactionTicker", [], "simpledb.DB.enableCompactions"),
+       ("simpledb.backgroundCompaction", Disp.joinedVia "simpledb.DB.doneCompactionChannel", ["direct", "direct"],
+         "simpledb.DB.enableCompactions")] ∧
     (acquisitions.filter (fun r => r.kind == "goroutine")).all (fun r => r.fn == "DB.Open") = true ∧
     ((relOf "DB.Close").filter (fun r => r.via == ["recv"])).map (fun r => (r.field, r.disp)) =
-      [("doneFlushChannel", RDisp.closedUnconditionally), ("doneCompactionChannel", RDisp.closedInBranch "db.enableCompactions")] ∧
-    ((relOf "DB.Close").filter (fun r => r.field == "compactionTicker")).map (·.disp) = [RDisp.closedInBranch "db.enableCompactions"] := by
+      [("doneFlushChannel", RDisp.closedUnconditionally), ("doneCompactionChannel", RDisp.closedInBranch "simpledb.DB.enableCompactions")] ∧
+    ((relOf "DB.Close").filter (fun r => r.field == "compactionTicker")).map (·.disp) = [RDisp.closedInBranch "simpledb.DB.enableCompactions"] := by
   decide +kernel
 
 /-- One compaction cycle: the output writer has a guarded deferred close for the error paths AND the direct close before the
 success flag is written; the inputs are closed by a deferred loop over the slice they were collected in — since bfb8835
 registered BEFORE the loop that opens them and with every reader appended right after it was opened, so that an input that
 fails to load or to scan no longer leaves the earlier ones (and itself) open: `closedOnAllPaths` (was FINDING F9); the
-flag-file writer by a `defer` that since a7ed007 precedes its `Open`: `closedOnAllPaths`, too.  The only row of the cycle
+flag-file writer by a `defer` that since a7ed007 precedes its `Open`: `closedOnAllPaths`, too.  (`bound`: the writer is held
+by a local of type `*SSTableStreamWriter`; every input reader sits in a slot of a local slice of readers — the one the
+deferred loop runs over; the guard of the writer's deferred close is a negated boolean local, `!writerClosed` in the source.)
+The only row of the cycle
 that is not closed on all paths is the intraprocedural `writer.Open` row explained at `allowedErrorPathLeaks`.  Excludes
 C11-m4 (the direct close removed: sites become `["defer"]`, the flag is written before the buffers are flushed), R3 (inputs
 not closed), bfb8835 / a7ed007 reversed. -/
 theorem compaction_closes_what_it_opened :
     (acqOf "simpledb.executeCompaction").map (fun r => (r.callee, r.bound, r.disp, r.sites, r.inLoop)) =
-      [("sstables.NewSSTableStreamWriter", "writer", Disp.leakedOnErrorPath, ["deferGuarded(!writerClosed)", "direct"], false),
-       ("sstables.NewSSTableReader", "reader", Disp.closedOnAllPaths, ["defer"], true)] ∧
-    (acqOf "simpledb.executeCompaction").map (·.leakOn) = [["writer.Open"], []] ∧
+      [("sstables.NewSSTableStreamWriter", "sstables.SSTableStreamWriter", Disp.leakedOnErrorPath, ["deferGuarded(!‹bool›)", "direct"], false),
+       ("sstables.NewSSTableReader", "‹[]sstables.SSTableReaderI›[]", Disp.closedOnAllPaths, ["defer"], true)] ∧
+    (acqOf "simpledb.executeCompaction").map (·.leakOn) = [["sstables.SSTableStreamWriter.Open"], []] ∧
     (acqOf "simpledb.saveCompactionMetadata").map (fun r => (r.callee, r.disp, r.sites)) =
-      [("rProto.NewWriter", Disp.closedOnAllPaths, ["defer"])] ∧
+      [("recordio/proto.NewWriter", Disp.closedOnAllPaths, ["defer"])] ∧
     (acqOf "simpledb.executeFlush").map (fun r => (r.callee, r.disp, r.errAfterStore)) =
-      [("sstables.NewSSTableReader", Disp.storedIn "db.sstableManager.addReader", [])] := by decide +kernel
+      [("sstables.NewSSTableReader", Disp.storedIn "simpledb.DB.sstableManager.addReader", [])] := by decide +kernel
 
-/-- Installing a compaction result: every input that has a reader is closed (`i >= 0` only guards the lookup) inside the loop
+/-- Installing a compaction result: every input that has a reader is closed (`i >= 0`, with `i` the index of the input path —
+an element of the metadata's path list — among the current readers, only guards the lookup) inside the loop
 that also removes its directory, before the rename; the new reader takes the slot of the replacement path, and the stacked
 reader is rebuilt.  Excludes C19-m5 (the close moved under `p != m.ReplacementPath`: the old reader of the oldest input is
 never closed although its directory is removed and replaced). -/
 theorem reflect_closes_inputs_before_removing_them :
     (relOf "SSTableManager.reflectCompactionResult").map (fun r => (r.field, r.disp, r.via, r.inLoop, r.inDefer)) =
-      [("allSSTableReaders", RDisp.closedInBranch "i >= 0", ["Close"], true, false),
+      [("allSSTableReaders", RDisp.closedInBranch
+          "simpledb.indexOfReader(simpledb.SSTableManager.allSSTableReaders, elem(simpledb/proto.CompactionMetadata.SstablePaths)) >= 0",
+          ["Close"], true, false),
        ("currentReader", RDisp.notClosed "", [], false, false)] ∧
     (acqOf "SSTableManager.reflectCompactionResult").map (fun r => (r.callee, r.bound, r.disp)) =
-      [("sstables.NewSSTableReader", "replacedReader -> s.allSSTableReaders[i]", Disp.leakedOnErrorPath),
-       ("sstables.NewSuperSSTableReader", "s.currentReader", Disp.storedIn "s.currentReader")] ∧
+      [("sstables.NewSSTableReader", "sstables.SSTableReaderI -> simpledb.SSTableManager.allSSTableReaders[]", Disp.leakedOnErrorPath),
+       ("sstables.NewSuperSSTableReader", "simpledb.SSTableManager.currentReader", Disp.storedIn "simpledb.SSTableManager.currentReader")] ∧
     (relOf "Appender.Rotate").map (fun r => (r.field, r.disp, r.order)) = [("currentWriter", RDisp.closedUnconditionally, 1)] := by
   decide +kernel
 
@@ -321,8 +350,9 @@ tolerated short last file, which returns nil from inside the `Open` error branch
 likewise.  Excludes C19-m6. -/
 theorem replay_closes_each_file :
     (acqOf "Replayer.replayFile").map (fun r => (r.callee, r.disp, r.sites, r.inLoop)) =
-      [("r.walOptions.readerFactory", Disp.closedOnAllPaths, ["defer"], false)] ∧
-    (acqOf "DB.repairCompactions").map (fun r => (r.callee, r.disp, r.sites)) = [("rProto.NewReader", Disp.closedOnAllPaths, ["defer"])] ∧
+      [("wal.Replayer.walOptions.readerFactory", Disp.closedOnAllPaths, ["defer"], false)] ∧
+    (acqOf "DB.repairCompactions").map (fun r => (r.callee, r.disp, r.sites)) =
+      [("recordio/proto.NewReader", Disp.closedOnAllPaths, ["defer"])] ∧
     (acqOf "sstables.readMetaDataIfExists").map (fun r => (r.callee, r.disp, r.sites)) = [("os.Open", Disp.closedOnAllPaths, ["defer"])] := by
   decide +kernel
 
@@ -335,8 +365,10 @@ scanner or registers it: the rows are `storedIn reader.miscClosers` with no leak
 iterator without registration), closing scanners behind a flag, 8cb5d77 reversed. -/
 theorem scanners_registered_with_their_reader :
     (acqOf "SSTableReader.Scan").map (fun r => (r.callee, r.bound, r.disp, r.sites, r.cond)) =
-      [("rProto.NewReader", "dataReader", Disp.storedIn "reader.miscClosers", ["return"], "reader.v0DataReader != nil"),
-       ("recordio.NewFileReader", "dataReader", Disp.storedIn "reader.miscClosers", ["return"], "!(reader.v0DataReader != nil)")] ∧
+      [("recordio/proto.NewReader", "recordio/proto.ReaderI", Disp.storedIn "sstables.SSTableReader.miscClosers", ["return"],
+         "nonNil(sstables.SSTableReader.v0DataReader)"),
+       ("recordio.NewFileReader", "recordio.ReaderI", Disp.storedIn "sstables.SSTableReader.miscClosers", ["return"],
+         "isNil(sstables.SSTableReader.v0DataReader)")] ∧
     (acqOf "SSTableReader.Scan").all (fun r => r.leakOn.isEmpty) = true ∧
     ((relOf "SSTableReader.Close").filter (fun r => r.field == "miscClosers")).map (fun r => (r.disp, r.inLoop, r.order, r.skippable)) =
       [(RDisp.closedUnconditionally, true, 1, false)] := by decide +kernel
